@@ -363,10 +363,14 @@ func (u *Unit) step(st *State, fr *Frame, instr ssa.Instruction) {
 		ft := st0.Field(in.Field).Type()
 		if p.Cell == nil {
 			// definitely nil: value is irrelevant after the failed obligation
-			fr.regs[in] = PtrV{Nil: TFalse, Cell: u.newCell(ft, true, false, "afternil"), Elem: ft}
+			// (in specifications: the zero value)
+			fr.regs[in] = PtrV{Nil: TFalse, Cell: u.newCell(ft, u.specMode == 0, false, "afternil"), Elem: ft}
 			return
 		}
 		np := PtrV{Nil: TFalse, Cell: p.Cell, Path: append(append([]int(nil), p.Path...), in.Field), Elem: ft}
+		if u.specMode > 0 {
+			np.Nil = p.Nil // totality: a field of a nil struct pointer reads as zero
+		}
 		fr.regs[in] = np
 	case *ssa.Field:
 		v := u.get(st, fr, in.X)
@@ -457,6 +461,13 @@ func (u *Unit) load(st *State, fr *Frame, pos token.Pos, p PtrV, t types.Type) V
 }
 
 func (u *Unit) loadNoCheck(st *State, p PtrV, t types.Type) Val {
+	if u.specMode > 0 && p.Cell != nil && p.Blk == nil && p.ElemIdx == nil && !(p.Nil.IsBool && !p.Nil.B) {
+		// specifications are total: reading through a nil pointer yields the
+		// zero value (so that "fresh(r.f)" holds when r is nil)
+		q := p
+		q.Nil = TFalse
+		return u.mergeVal(p.Nil, u.zeroVal(t), u.loadNoCheck(st, q, t))
+	}
 	switch {
 	case p.Blk != nil:
 		r := u.regionOf(st, p.Blk)
@@ -464,6 +475,9 @@ func (u *Unit) loadNoCheck(st *State, p PtrV, t types.Type) Val {
 		u.byteFact(b)
 		return b
 	case p.Cell == nil:
+		if u.specMode > 0 {
+			return u.zeroVal(t)
+		}
 		return u.freshVal(st, t, "nilload", false)
 	case p.ElemIdx != nil:
 		// element of a byte array inside a cell
